@@ -93,12 +93,29 @@ def run(prog, tier) -> Result:
             t = TermV(mag, {"T1": (1, 0), "T2": (e2, 0)}, items=items)
             return [t], {}
         return setup
+    def with_lookup_rule(inner):
+        def judge(o):
+            r = inner(o)
+            if r is not None:
+                return r
+            if o.kind == "raise" and o.exc.name == "KeyError":
+                st = o.state
+                want = st.norm(o.args[0].mag)
+                keys = [e[2] for e in st.effects if e[0] == "mapread" and getattr(e[1], "registry", False)
+                        and isinstance(e[2], TermV)]
+                if not any(st.norm(k.mag).equals(want) for k in keys):
+                    return ("gives up without looking up the term itself",
+                            f"KeyError although the unit directory was never asked for the exact definition "
+                            f"(lookups: {[repr(st.norm(k.mag)) for k in keys]}): a unit declared with exactly this "
+                            f"definition (including its numeric factor) would not be found")
+            return None
+        return judge
     for dk in ("product", "quotient"):
         e2 = 1 if dk == "product" else -1
         cr.run("R02.1", af, f"_amnt_and_unit_from_term {dk}", term_setup(dk),
-               judge_product(lambda o: o.args[0].mag,
-                             lambda o, e2=e2: {"T1": (1, 0), "T2": (e2, 0)},
-                             allow=("KeyError",), want_tuple=True))
+               with_lookup_rule(judge_product(lambda o: o.args[0].mag,
+                                              lambda o, e2=e2: {"T1": (1, 0), "T2": (e2, 0)},
+                                              allow=("KeyError",), want_tuple=True)))
     qf = prog.modules["quantity"].functions.get("_qty_from_term")    # private helper, optional
     if qf is not None:
         cr.run("R02.1", qf, "_qty_from_term quotient", term_setup("quotient"),
